@@ -6,6 +6,13 @@ CT = {  # ctype -> (bits, signed) ; None bits = float
  'int': (32, True), 'unsigned int': (32, False), 'unsigned long long': (64, False), 'long long': (64, True),
  'bint': (32, True), 'double': (None, None), 'Py_ssize_t': (64, True)}
 PYT = {'object', 'dict', 'list', 'tuple', 'bytes'}
+STRUCTS = {}   # name -> [(field, ctype)]
+def csize(ct):
+    ct = ct.strip()
+    if ct.endswith('*'): return 8
+    if ct in STRUCTS: return sum(csize(t) for _, t in STRUCTS[ct])   # packed
+    return CT[ct][0] // 8
+FMT = {'unsigned long long': 'Q', 'unsigned int': 'I', 'unsigned char': 'B', 'unsigned short': 'H', 'int': 'i', 'bint': 'i'}
 TYPE_RE = r'(?:const\s+)?(?:void|unsigned long long|unsigned char|unsigned short|unsigned int|long long|char|short|int|bint|double|object|dict|list|tuple|bytes|[a-z_]+_t)'
 
 class Poison:
@@ -15,7 +22,7 @@ class ModelViolation(Exception): pass
 
 def conv(ct, v, from_py):
     if isinstance(v, Poison): raise ModelViolation('read of uninitialised memory')
-    if ct in PYT or ct.endswith('*') or ct.endswith('_t'): return v
+    if ct in PYT or ct.endswith('*') or ct in STRUCTS: return v
     bits, signed = CT[ct]
     if bits is None: return float(v)
     if ct == 'bint': return 1 if v else 0
@@ -41,6 +48,32 @@ class CArray:
         if isinstance(i, slice): self.a[i] = [conv(self.ct, x, True) for x in v]; return
         if not 0 <= i < len(self.a): raise ModelViolation(f'out of bounds write {i}/{len(self.a)}')
         self.a[i] = conv(self.ct, v, False)
+class StructVal:
+    def __init__(self, name, vals=None):
+        object.__setattr__(self, '_n', name)
+        for f, t in STRUCTS[name]: object.__setattr__(self, f, POISON if vals is None else vals[f])
+    def __setattr__(self, k, v):
+        t = dict(STRUCTS[self._n])[k]; object.__setattr__(self, k, conv(t, v, False))
+    def __getattribute__(self, k):
+        v = object.__getattribute__(self, k)
+        if v is POISON: raise ModelViolation(f'read of uninitialised struct field {k}')
+        return v
+class Ptr:
+    def __init__(self, buf, off, ct): self.buf, self.off, self.ct = buf, off, ct
+    def __add__(self, n): return Ptr(self.buf, self.off + n * csize(self.ct), self.ct)
+    def __getitem__(self, i):
+        o = self.off + i * csize(self.ct)
+        if o < 0 or o + csize(self.ct) > len(self.buf): raise ModelViolation(f'out of bounds pointer read at {o}')
+        if self.ct in STRUCTS:
+            vals = {}
+            for f, t in STRUCTS[self.ct]:
+                vals[f] = struct.unpack_from('<' + FMT[t], self.buf, o)[0]; o += csize(t)
+            return StructVal(self.ct, vals)
+        return struct.unpack_from('<' + FMT[self.ct], self.buf, o)[0]
+def OFF(arr, i):
+    if isinstance(arr, Ptr): return arr + i
+    if isinstance(arr, (bytes, bytearray, memoryview)): return Ptr(bytes(arr), i, 'unsigned char')
+    return Off(arr, i)
 class Off:   # &arr[i]
     def __init__(self, arr, off): self.arr, self.off = arr, off
     def __getitem__(self, i): return self.arr[self.off+i]
@@ -60,14 +93,16 @@ def SETP(fr, k, v): object.__setattr__(fr, k, conv(object.__getattribute__(fr, '
 def CAST(ct, v):
     if ct.endswith('*'):
         et = ct[:-1].strip()
-        return v if not isinstance(v, int) else CArray(et, v // (CT[et][0]//8))
+        if isinstance(v, Ptr): return Ptr(v.buf, v.off, et)
+        return v if not isinstance(v, int) else CArray(et, v // csize(et))
     return conv(ct, v, False)
 def CDIV(a, b):
     q = abs(a)//abs(b); return q if (a >= 0) == (b >= 0) else -q
 def frexp(x, ref): m, e = math.frexp(x); SETC(ref.fr, ref.name, e); return m
 RT = dict(POISON=POISON, CArray=CArray, Off=Off, Ref=Ref, Frame=Frame, SETC=SETC, SETP=SETP, CAST=CAST, CDIV=CDIV,
           frexp=frexp, ldexp=math.ldexp, PyMem_Malloc=lambda n: n, PyMem_Free=lambda p: None,
-          memset=lambda arr, v, n: arr.a.__setitem__(slice(0, n), [v]*n), sizeof=lambda t: CT[t][0]//8)
+          memset=lambda arr, v, n: arr.a.__setitem__(slice(0, n // csize(arr.ct)), [v]*(n // csize(arr.ct))), sizeof=csize,
+          OFF=OFF, Ptr=Ptr, StructVal=StructVal, _PyDict_NewPresized=lambda n: {})
 
 def pre(src):
     """line pass -> python text + per-function type table"""
@@ -79,6 +114,17 @@ def pre(src):
         if not s or s.startswith('#'): out.append(l); continue
         if s.startswith('cdef '): s = re.sub(r'\s+#.*$', '', s)
         if s.startswith(('cimport ', 'from cpython', 'from libc')) or s.startswith('@cython.'): continue
+        if s.startswith('cdef extern from'):
+            while i < len(lines) and (not lines[i].strip() or lines[i].startswith(' ')): i += 1
+            continue
+        m = re.match(r'cdef packed struct (\w+):$', s)
+        if m:
+            fields = []
+            while i < len(lines) and lines[i].startswith(' ') and lines[i].strip():
+                mm = re.match(r'\s*(.*?)\s*(\*?)(\w+)$', lines[i]); fields.append((mm.group(3), mm.group(1).strip() + ('*' if mm.group(2) else ''))); i += 1
+            STRUCTS[m.group(1)] = fields; continue
+        if s.startswith('def ') and not s.endswith(':'):
+            while not s.endswith(':'): s += ' ' + lines[i].strip(); i += 1
         m = re.match(r'def (\w+)\((.*)\):$', s)
         if m and not ind:
             cur = m.group(1); ftypes[cur] = {}
@@ -110,6 +156,8 @@ def pre(src):
                 name, _, init = d.partition('=')
                 name = name.strip()
                 if ind:
+                    if t in STRUCTS and not ptr:
+                        out.append(f'{ind}{name} = StructVal({t!r})'); continue
                     ftypes[cur][name] = 'object' if (ptr or t in PYT) else t
                     if init.strip(): out.append(f'{ind}{name} = {init.strip()}')
                 else:
@@ -128,12 +176,14 @@ def casts(text):
         t = m.group(1).strip(); return f'CAST({t!r}, '
     res = []
     for line in text.split('\n'):
+        line = re.sub(r'&([\w.]+)\[([^\]]+)\]', r'OFF(\1, \2)', line)
+        line = re.sub(r'&(\w+)\b', r'Ref(_v, "\1")', line)
         while True:
-            m = re.search(r'<\s*((?:unsigned |long )*(?:char|short|int|long|double)\s*\*?|\w+_t\s*\*?)\s*>\s*', line)
+            m = re.search(r'<\s*((?:unsigned |long )*(?:char|short|int|long|double|bint)\s*\*?|\w+_t\s*\*?)\s*>\s*', line)
             if not m: break
             j = m.end(); depth = 0; k = j
             # primary: identifier/attr + trailers
-            mm = re.match(r'[A-Za-z_][\w.]*', line[k:]); k += mm.end()
+            mm = re.match(r'[A-Za-z_][\w.]*', line[k:]); k += mm.end() if mm else 0
             while k < len(line) and line[k] in '([':
                 close = ')' if line[k] == '(' else ']'; d = 0
                 while True:
@@ -141,9 +191,8 @@ def casts(text):
                     if line[k] in ')]': d -= 1
                     k += 1
                     if d == 0: break
-            line = line[:m.start()] + f'CAST({m.group(1).strip()!r}, {line[j:k]})' + line[k:]
-        line = re.sub(r'&(\w+)\[([^\]]+)\]', r'Off(\1, \2)', line)
-        line = re.sub(r'&(\w+)\b', r'Ref(_v, "\1")', line)
+            ct = re.sub(r'\s*\*', '*', m.group(1).strip())
+            line = line[:m.start()] + f'CAST({ct!r}, {line[j:k]})' + line[k:]
         res.append(line)
     return '\n'.join(res)
 
